@@ -189,6 +189,27 @@ class ScriptedCoupling:
         return StochasticJumpPath(self._times, diff, np.zeros((2, 2)))
 
 
+# payoff kinds: name -> strikes of the call (None = forward with strike 0). "forward" and "call2" are the historical kinds;
+# the others vary the DIMENSION and the ARGUMENT FORM of the strike: "calls" scalar float (dimension 1, scalar form),
+# "call1" list of one strike (dimension 1, vector form), "call3" numpy array of three strikes, "call2t" tuple of two.
+_PAYOFF_STRIKES = {
+    "forward": None,
+    "call2": (0.25, 1000.0),
+    "calls": (0.25,),
+    "call1": (0.25,),
+    "call2t": (0.25, 1000.0),
+    "call3": (0.25, 1000.0, 2000.5),
+}
+
+
+def payoff_dim(payoff_kind) -> int:
+    """Number of components of the payoff of that kind."""
+    if payoff_kind not in _PAYOFF_STRIKES:
+        raise ValueError(payoff_kind)
+    strikes = _PAYOFF_STRIKES[payoff_kind]
+    return 1 if strikes is None else len(strikes)
+
+
 def make_product(payoff_kind="forward", notional=1.0, maturity=1.0):
     from rpylib.product.payoff import Forward, PayoffType, Vanilla
     from rpylib.product.product import Product
@@ -198,6 +219,14 @@ def make_product(payoff_kind="forward", notional=1.0, maturity=1.0):
         payoff = Forward(strike=0.0)
     elif payoff_kind == "call2":
         payoff = Vanilla(strike=[0.25, 1000.0], payoff_type=PayoffType.CALL)
+    elif payoff_kind == "calls":
+        payoff = Vanilla(strike=0.25, payoff_type=PayoffType.CALL)
+    elif payoff_kind == "call1":
+        payoff = Vanilla(strike=[0.25], payoff_type=PayoffType.CALL)
+    elif payoff_kind == "call2t":
+        payoff = Vanilla(strike=(0.25, 1000.0), payoff_type=PayoffType.CALL)
+    elif payoff_kind == "call3":
+        payoff = Vanilla(strike=np.array([0.25, 1000.0, 2000.5]), payoff_type=PayoffType.CALL)
     else:
         raise ValueError(payoff_kind)
     return Product(payoff_underlying=Spot(), payoff=payoff, maturity=maturity, notional=notional)
@@ -207,8 +236,8 @@ def payoff_ref(payoff_kind, notional, df, x):
     """Reference payoff of the terminal underlying value x (what the stored row must contain)."""
     if payoff_kind == "forward":
         return np.array([notional * (x - 0.0) * df])
-    if payoff_kind == "call2":
-        return np.array([notional * max(x - 0.25, 0.0) * df, notional * max(x - 1000.0, 0.0) * df])
+    if payoff_kind in _PAYOFF_STRIKES:
+        return np.array([notional * max(x - k, 0.0) * df for k in _PAYOFF_STRIKES[payoff_kind]])
     raise ValueError(payoff_kind)
 
 
